@@ -70,7 +70,7 @@ def oracle (env : Env) (cl : CfgLine) (rq : Request) (reply : Seen) (srv : Toks)
             if pm.toNat? ≠ some (specPeerMax rq.userVars) then
               some ("max-pdu-from-request", s!"kept={pm} want={specPeerMax rq.userVars}")
             else
-              match (do let (_, r) ← nat rest; let (_, r) ← str r; let (_, r) ← str r; counted negotiated r) with
+              match (do let (_, r) ← word rest; let (_, r) ← str r; let (_, r) ← str r; counted negotiated r) with
               | some (negs, _) =>
                 if negs.map (fun n => (n.id, n.reason, n.transferSyntax)) ≠
                     ac.contexts.map (fun c => (c.id, c.reason, c.transferSyntax)) then
@@ -125,7 +125,9 @@ def handleCase (env : Env) (ts : Toks) : String :=
             let out := processRq .repaired cfg env.reg cl.pol env.impl first
             let mReply := showPdu out.reply
             let mSrv := match out.result with
-              | .ok v => showView v
+              | .ok v =>
+                -- the in-process hook returns the negotiated options without the acceptor's own maximum
+                if mode == "hook" then (showView v).set 2 "-" else showView v
               | .error e => [showErr e]
             if mReply ≠ replyT then
               s!"MODEL-DIFF reply model={" ".intercalate mReply} impl={" ".intercalate replyT}"
